@@ -251,6 +251,10 @@ func runSolver(sp solverSpec, file string, timeoutS int, seed int) SolveResult {
 // Solve runs the query: z3-new first; on unknown/timeout/error the two others in parallel.
 // With cross=true every solver is run and any disagreement is reported as "disagree".
 func Solve(q *Query, dir string, timeoutS int, seed int, cross bool) SolveResult {
+	return solve(q, dir, timeoutS, seed, cross, false)
+}
+
+func solve(q *Query, dir string, timeoutS int, seed int, cross bool, coverOnly bool) SolveResult {
 	file := filepath.Join(dir, smtFileName(q.Name)+".smt2")
 	text := q.Text
 	if text == "" {
@@ -258,6 +262,15 @@ func Solve(q *Query, dir string, timeoutS int, seed int, cross bool) SolveResult
 	}
 	if err := os.WriteFile(file, []byte(text), 0o644); err != nil {
 		return SolveResult{Status: "error", Raw: err.Error()}
+	}
+	if coverOnly {
+		// covers only look for a contradiction: one solver, short limit; anything but unsat
+		// means the assumptions were not refuted
+		t := timeoutS
+		if t > 4 {
+			t = 4
+		}
+		return runSolver(solvers[0], file, t, seed)
 	}
 	if !cross {
 		r := runSolver(solvers[0], file, timeoutS, seed)
